@@ -130,6 +130,7 @@ type Rewriter struct {
 	orderedBy bool
 	modified  bool
 	returning bool
+	jdValue   string
 }
 
 // NewRewriter returns a new Rewriter. This object is not thread
@@ -147,6 +148,7 @@ func NewRewriter() *Rewriter {
 // Do rewrites the provided statement. If the statement is rewritten, the second return value is true.
 func (rw *Rewriter) Do(stmt sql.Statement) (sql.Statement, bool, bool, error) {
 	rw.modified = false
+	rw.jdValue = ""
 	node, err := sql.Walk(rw, stmt)
 	if err != nil {
 		return nil, false, false, err
@@ -166,7 +168,10 @@ func (rw *Rewriter) Visit(node sql.Node) (w sql.Visitor, n sql.Node, err error) 
 		return rw, node, nil
 	case *sql.Call:
 		// If used, ensure the value is same for the duration of the statement
-		jd := julianDayAsNumberLit(rw.nowFn())
+		if rw.jdValue == "" {
+			rw.jdValue = julianDayAsNumberLit(rw.nowFn()).Value
+		}
+		jd := &sql.NumberLit{Value: rw.jdValue}
 
 		if rw.RewriteTime &&
 			(strings.EqualFold(n.Name.Name, "date") ||
